@@ -21,7 +21,8 @@ def doProx (l : Line) : Option String := do
   let p ← l.f? "p"
   let par : Par Float := {
     lam := ← l.f? "lam", sigma := ← l.f? "sigma", gamma := ← l.f? "gamma",
-    radius := ← l.f? "radius", eps := ← l.f? "eps", a := ← l.f? "a", b := ← l.f? "b" }
+    radius := ← l.f? "radius", eps := ← l.f? "eps", cw := ← l.f? "cw",
+    a := ← l.f? "a", b := ← l.f? "b" }
   let x ← l.fs? "x"
   let j ← l.fs? "j"
   let g ← l.fs? "g"
